@@ -698,7 +698,18 @@ func c07NodeAfterError(c *Ctx, r *Result) {
 					}
 				}
 				if fa, ok := in.(*ssa.FieldAddr); ok && isNodeLoad(fa.X) {
-					return true
+					// under `err == nil` of an error handed in by the caller: the caller's pending
+					// error guards the use (ndOtherwiseFinally(p, try, err))
+					guarded := false
+					facts := FactsAt(in)
+					for _, prm := range fn.Params {
+						if prm.Type().String() == "error" && facts.IsNil[accessPath(prm)] {
+							guarded = true
+						}
+					}
+					if !guarded {
+						return true
+					}
 				}
 			}
 			for _, s := range b.Succs {
